@@ -160,6 +160,23 @@ def _worker_init(repo, quiet):
         os.dup2(devnull, 1)
     import warnings
     warnings.filterwarnings('ignore')
+    # diagnostic only (bin/anchorcov): statement coverage of rsome under the replay families
+    cdir = os.environ.get('VERIF_COVERAGE_DIR')
+    if cdir and _COV[0] is None:
+        import coverage
+        os.makedirs(cdir, exist_ok=True)
+        _COV[0] = coverage.Coverage(data_file=os.path.join(cdir, 'cov.%d' % os.getpid()), include=[os.path.join(repo, 'rsome', '*')], branch=False)
+        _COV[0].start()
+
+
+_COV = [None, 0]
+
+
+def _cov_tick(force=False):
+    if _COV[0] is not None:
+        _COV[1] += 1
+        if force or _COV[1] % 200 == 0:
+            _COV[0].save()
 
 
 def _call(args):
@@ -167,14 +184,20 @@ def _call(args):
     try:
         import importlib
         mod = importlib.import_module(modname)
-        return getattr(mod, fname)(job)
+        try:
+            return getattr(mod, fname)(job)
+        finally:
+            _cov_tick()
     except Exception as e:  # harness bug or import error: machinery, not a verdict
         return dict(machinery_error='%s: %s' % (type(e).__name__, e), tb=traceback.format_exc(), job=job)
 
 
 def _call_chunk(args):
     modname, fname, chunk = args
-    return [_call((modname, fname, j)) for j in chunk]
+    try:
+        return [_call((modname, fname, j)) for j in chunk]
+    finally:
+        _cov_tick(force=True)
 
 
 def pmap(modname, fname, jobs, workers=None, chunksize=8, quiet=True):
